@@ -32,9 +32,15 @@ def gen_plan(rng, tier, i, seed):
     cfg = TIERS[tier]
     L, step = rng.choice(READS)
     o = WL.gene_opts(rng, small=True)
+    o["cluster"] = rng.random() < 0.5
     world = W.gen_world(rng, 1, [o], dict(L=L, step=step), margin=max(200, L + 60))
     g = world["genes"][0]
     units = WL._gen_units(rng, g)
+    if rng.random() < 0.25:
+        # the same haplotype on every copy (homozygous calls have their own code paths)
+        first = next((u for u in units if u["type"] == "normal"), None)
+        if first:
+            units = [dict(first), dict(first)] + [dict(first, type="extra") for u in units[2:]]
     smp = {"name": "s0", "genes": {g["name"]: units}, "phase_seed": rng.randint(0, 999),
            "paired": rng.random() < 0.4}
     return {"world": world, "samples": {"s0": smp}, "build": rng.choice(["hg19", "hg19", "hg38"]),
